@@ -66,8 +66,11 @@ def variant(draw, shape, default):
     """How to (re)present a content: noise tree, shape growth, route, wrapper."""
     grow = [draw(st.integers(0, 2)) for _ in shape]
     big = [s + g for s, g in zip(shape, grow)]
-    noise = draw(st.one_of(st.just([]), gen.trees(big, default, leaf=st.just(default), max_elems=3),
-                           gen.trees(big, default, leaf=st.just(default), max_elems=3)))
+    # (an explicit default may be stored as another numeric type: 0.0 under the default 0 is what a cancelling
+    # float sum leaves behind, and it is as empty as 0)
+    dleaf = st.sampled_from([default, default, float(default)]) if isinstance(default, int) else st.just(default)
+    noise = draw(st.one_of(st.just([]), gen.trees(big, default, leaf=dleaf, max_elems=3),
+                           gen.trees(big, default, leaf=dleaf, max_elems=3)))
     return {"noise": noise, "shape": big,
             "route": draw(st.sampled_from(["ref", "fiber", "uncompressed", "yaml", "deepcopy"])),
             "as": draw(st.sampled_from(["tensor", "root", "unowned"])),
